@@ -16,7 +16,12 @@ pub fn is_contiguous<S: SizeArray, Strides: SizeArray>(shape: &S, strides: &Stri
         if stride != product {
             return false;
         }
-        product *= size;
+        // If the element count overflows, the remaining strides cannot be
+        // checked exactly, so conservatively report non-contiguous.
+        let Some(next_product) = product.checked_mul(size) else {
+            return false;
+        };
+        product = next_product;
     }
     true
 }
@@ -72,7 +77,14 @@ pub fn may_have_internal_overlap(shape: impl SizeArray, strides: impl SizeArray)
         if stride <= max_offset {
             return true;
         }
-        max_offset += (shape - 1) * stride;
+        // If the maximum offset overflows, offsets wrap around and may alias.
+        let Some(next_max_offset) = (shape - 1)
+            .checked_mul(stride)
+            .and_then(|dim_max| max_offset.checked_add(dim_max))
+        else {
+            return true;
+        };
+        max_offset = next_max_offset;
     }
     false
 }
